@@ -108,6 +108,29 @@ pub fn judge(x: &Vec<u8>, st: &mut Stats) -> Verdict {
             b.build()
         }),
     )?;
+    // a3. the payload handed over in small pieces, as a forwarder does that copies from a ring buffer or re-frames what it
+    //     received: byte by byte, as 16-bit words, in chunks of k bytes (one batch of many tiny items)
+    {
+        let payload: &[u8] = &original[16..];
+        check("raw-bytewise-batch", guard(|| Builder::new(x[12], x[13]).write_payloads(payload.iter().copied())?.build()))?;
+        let k = [1usize, 2, 3, 5, 7, 16, 64, 255, 1024][(x.digest() % 9) as usize];
+        check(&format!("raw-chunks-of-{}", k), guard(|| Builder::new(x[12], x[13]).write_payloads(payload.chunks(k))?.build()))?;
+        if payload.len() % 2 == 0 {
+            check("raw-u16-words", guard(|| Builder::new(x[12], x[13]).write_payloads(payload.chunks(2).map(|c| u16::from_be_bytes([c[0], c[1]])))?.build()))?;
+        }
+        if payload.len() <= 4096 {
+            check(
+                "raw-bytewise-single-writes",
+                guard(|| {
+                    let mut b = Builder::new(x[12], x[13]);
+                    for byte in payload {
+                        b = b.write_payload(*byte)?;
+                    }
+                    b.build()
+                }),
+            )?;
+        }
+    }
     // c. the TLV iterator as a payload
     check("tlvs-iterator", guard(|| Builder::new(x[12], x[13]).write_payload(h.address_bytes())?.write_payload(h.tlvs())?.build()))?;
     // c2. a proxy that validates before it forwards: the iterator has been walked (fully, or by one item) before it
@@ -208,6 +231,17 @@ pub fn judge(x: &Vec<u8>, st: &mut Stats) -> Verdict {
     // e. from the decoded address value
     if fam != 0 {
         check("with_addresses", guard(|| Builder::with_addresses(x[12], h.protocol, h.addresses).write_payload(h.tlv_bytes())?.build()))?;
+        // the decoded endpoints as a pair of socket addresses (what a forwarder holds that learnt them from accept() / a
+        // parsed header and hands them to the builder the way the crate's README does)
+        use std::net::{SocketAddr, SocketAddrV4, SocketAddrV6};
+        let pair: Option<(SocketAddr, SocketAddr)> = match h.addresses {
+            ppp::v2::Addresses::IPv4(a) => Some((SocketAddr::V4(SocketAddrV4::new(a.source_address, a.source_port)), SocketAddr::V4(SocketAddrV4::new(a.destination_address, a.destination_port)))),
+            ppp::v2::Addresses::IPv6(a) => Some((SocketAddr::V6(SocketAddrV6::new(a.source_address, a.source_port, 0, 0)), SocketAddr::V6(SocketAddrV6::new(a.destination_address, a.destination_port, 0, 0)))),
+            _ => None,
+        };
+        if let Some(pair) = pair {
+            check("with_addresses-socket-pair", guard(|| Builder::with_addresses(x[12], h.protocol, pair).write_payload(h.tlv_bytes())?.build()))?;
+        }
         let owned = h.to_owned();
         check("with_addresses-owned", guard(|| Builder::with_addresses(owned.version | owned.command, owned.protocol, owned.addresses).write_payload(owned.tlvs())?.build()))?;
     }
